@@ -55,15 +55,23 @@ static int tv_wf(const struct tval *v) { return v->has_b <= 1 && v->b <= 1 && v-
 
 /* ---- C03: alternative valid encodings of the same value ---- */
 #define TV_HAS_VARIANT 1
-struct tvariant { uint8_t dflt_present; uint8_t unk; uint8_t unkval; };
-static int tvar_valid(const struct tvariant *x) { return x->dflt_present <= 1 && x->unk <= 1; }
+struct tvariant { uint8_t dflt_present; uint8_t unk; uint8_t unkval; uint8_t unklen; };
+/* unk: 0 none, 1 primitive unknown addition [3] of unklen (0..2) octets, 2 constructed unknown addition [3]
+ * holding one OCTET STRING of unklen octets (its own length form may be indefinite) */
+static int tvar_valid(const struct tvariant *x) { return x->dflt_present <= 1 && x->unk <= 2 && x->unklen <= 2; }
 /* BER: DEFAULT component may be present with the default value; an unknown extension addition [3] may follow */
 static size_t ref_ber_variant(const struct tval *v, const struct tvariant *x, uint8_t *out, size_t cap) {
-    uint8_t body[24]; struct rbuf b = { body, 0, sizeof(body) };
+    uint8_t body[32]; struct rbuf b = { body, 0, sizeof(body) };
     der_int_tagged(&b, CL_CTX, 0, v->a);
     if(v->has_b) der_bool_tagged(&b, CL_CTX, 1, v->b);
     if(tv_c(v) != 7 || x->dflt_present) der_int_tagged(&b, CL_CTX, 2, tv_c(v));
-    if(x->unk) der_octets_tagged(&b, CL_CTX, 3, &x->unkval, 1);
+    uint8_t uv[2] = { x->unkval, (uint8_t)~x->unkval };
+    if(x->unk == 1) der_octets_tagged(&b, CL_CTX, 3, uv, x->unklen);
+    else if(x->unk == 2) {
+        uint8_t inner[6]; struct rbuf ib = { inner, 0, sizeof(inner) };
+        der_octets_tagged(&ib, CL_UNIV, 4, uv, x->unklen);
+        x_constructed(&b, CL_CTX, 3, inner, ib.n);
+    }
     struct rbuf o = { out, 0, cap };
     x_constructed(&o, CL_UNIV, 16, body, b.n);
     return o.n;
